@@ -26,7 +26,7 @@ from usim._core.waitq import HQWaitQueue, SDWaitQueue
 
 from ..engine import EQ, GE, LE, LT, GT, AND, OR, NOT, SNum
 from ..explore import Family
-from ..kit import Log, simulate, now, classify_run_exception, UserErr, at_cp
+from ..kit import Log, simulate, now, classify_run_exception, UserErr, at_cp  # noqa
 from ..ops import World, OPS, make_op
 from ..probe import Probe
 
@@ -133,6 +133,52 @@ def fam_prog(E, names, k, nops, cancels=True, repeats=4):
             same_trace(E, t1, tr, 'same-trace-when-repeated-with-other-memory-layout')
 
 
+def fam_do(E, repeats=2):
+    """scope.do(..., after=d / at=t) with d >= 0 and t >= now (zero / now included) next to
+    activities taking turns: the start position of the tasks inside a time step is part of the
+    trace (compared between backends, repeated runs and python / python -O)"""
+    d = E.int('d', 0, 10)
+    t = E.int('t', 0, 10)
+    w = E.int('w', 0, 10)
+
+    def run_once(waitqueue, note):
+        log = Log(note=note)
+
+        async def child(name):
+            log(name, 'start')
+            await instant
+            log(name, 'second')
+
+        async def root():
+            await (time + w)
+            E.assume(GE(t, now()), 'do(at=t) requires t >= now')
+            async with Scope() as s:
+                s.do(child('a'), after=d)
+                s.do(child('b'), at=t)
+                s.do(child('c'))
+                log('r', 'spawned')
+                await instant
+                log('r', 'turn')
+
+        async def bystander():
+            for k in range(3):
+                await (time + 5)
+                log('y', 'tick', k)
+
+        out = simulate(root(), bystander(), log=log, probe=Probe(check_fifo=True),
+                       waitqueue=waitqueue)
+        return log.events, out
+
+    t1, out1 = run_once(HQWaitQueue, True)
+    t2, out2 = run_once(SDWaitQueue, False)
+    same_trace(E, t1, t2, 'same-trace-on-both-wait-queue-backends')
+    E.prove(out1.exc is None and out2.exc is None, 'run-ends-normally', (out1.exc, out2.exc))
+    if E.concrete:
+        for r in range(repeats):
+            tr, _ = run_once(HQWaitQueue, False)
+            same_trace(E, t1, tr, 'same-trace-when-repeated-with-other-memory-layout')
+
+
 def fam_float(E, repeats=2):
     """IEEE double dates (z3 floating point): a sleeper whose second delay may be absorbed by
     the current date (now + d == now), next to a bystander taking turns; the trace must be the
@@ -234,8 +280,8 @@ FIXED = {'h': 2, 'r': 3, 'u': 4, 'x': 1, 'v': 2, 'a': 1, 'b': 1, 'p': 2, 'd2': 3
 TINY = ['sleep', 'after', 'await flag', 'await tracked>=x', 'lock', 'await queue', 'borrow',
         'first', 'until']
 WANT_DIGEST = True
-QUICK_O_FAMILIES = ['pair_cancel']     # quick tier: -O differential on this family only
-THOROUGH_O_FAMILIES = ['pair', 'trio', 'six_sleepers']
+QUICK_O_FAMILIES = ['pair_cancel', 'do_dates']     # quick tier: -O differential on this family only
+THOROUGH_O_FAMILIES = ['pair', 'trio', 'six_sleepers', 'do_dates']
 FAMILIES = [
     Family('pair', fam_prog,
            quick=dict(names=TINY, k=2, nops=1, cancels=False, _validate_every=3),
@@ -247,6 +293,11 @@ FAMILIES = [
            nonrepro='inconclusive',
            bounds='6 (thorough 7) sleepers with free delays: every shape of the wait queue, on '
                   'both backends'),
+    Family('do_dates', fam_do,
+           quick=dict(), thorough=dict(),
+           nonrepro='inconclusive',
+           bounds='scope.do(after=d), do(at=t), do() with d, t, entry date in [0,10] (zero and '
+                  '"now" included); compared between backends and between python and python -O'),
     Family('float_absorb', fam_float,
            quick=dict(),
            thorough=dict(_max_wall=1200),
